@@ -7,7 +7,10 @@ import types
 
 import numpy as np
 
+from props import c16_g6 as _g6
+
 LEVEL = "proof"
+EXTRA_PROPS = ["QuantemModel.Props.C16Ext"]   # growth 6: propagator stacks, composed / periodic integer shifts, translation-operator options
 MANIFEST_ENTRY = {
     "category": "proof",
     "text": "Lean 4 theorems over an executable model (generic numeric carrier, defining DFT sums) of the ptychography forward-model operators: index_add scatter is the exact adjoint of patch gathering for every index list (repeats, wrap) - also for the model WITH torch's argument checks and the partial writes of index_add_ before an IndexError, in every history of accepted and rejected calls (adjoint_checked, adjoint_history, rejected_calls_erasable, scatter_checked_ok_iff); phase ramps and Fresnel kernels have unit modulus, compose additively and invert; Fourier shift and propagation preserve total intensity (Parseval for the modelled DFT, proved from root-of-unity orthogonality); integer shifts equal circular rolls; pure-phase multislice exit waves carry the probe's total intensity for any number of slices/modes, and back-transmitting / back-propagating them through the chain of ObjectPixelated.backward returns the entrance wave (backward_forward_identity); the Fourier magnitude projection is idempotent and returns exactly the measured amplitudes (single state everywhere incl. exactly vanishing Fourier coefficients, mixed state wherever the current far field is non-zero); reset_recon restores the object constraints after every history of accepted / rejected (partially written) constraint updates, and the class-level defaults never change (reset_restores_defaults, defaults_never_change, rejected_add_is_noop, reset_modulus_neutral). Every run ties the model to the code by exact integer streams (gather/scatter, integer shifts, call histories with raising calls, constraint-dictionary sessions) and float streams (translation operator, shift, propagators, propagation, multislice overlap, backward chain, detector, estimate_amplitudes/intensities, projection) and evaluates the identities on the real functions, on real Ptychography instances, over call histories with kept results, raising calls, in-place updated argument objects and reset/configure/reset sessions.",
@@ -1985,10 +1988,12 @@ STREAMS = {           # name: (function, quick count, thorough count)
     "history": (s_history, 130, 2500),
     "rhist": (s_rhist, 90, 2000),
     "session": (s_session, 25, 800),
+    "stack": (_g6.s_stack, 3, 80),        # growth 6: genuine multislice instances (props/c16_g6.py)
+    "geom": (_g6.s_geom, 3, 80),          # growth 6: non-square / wrap-around / two-results-alive / options
 }
 
 
-FIXED = {"proj": 36, "rhist": 24, "session": 60}      # sizes of the fixed (seed-independent) blocks
+FIXED = {"proj": 36, "rhist": 24, "session": 60, "stack": len(_g6.STACK_TABLE), "geom": len(_g6.GEOM_SHAPES)}      # sizes of the fixed (seed-independent) blocks
 
 
 def run_case(ctx, drv, I, name, case):
